@@ -469,6 +469,9 @@ func (r *Report) AddK(kr *KResult, witnesses []string) {
 	if !kr.Exhaustive {
 		r.Exhaustive = false
 		r.Caps = append(r.Caps, kr.Cfg.Name+": "+kr.Cap)
+		if strings.HasPrefix(kr.Cap, "MACHINERY-GAP") {
+			r.MachineryError = kr.Cfg.Name + ": " + kr.Cap
+		}
 	}
 	r.Viols = append(r.Viols, kr.Viols...)
 	for _, s := range kr.Samples {
